@@ -176,3 +176,19 @@ Theorem c18_roster_file_checker : forall stored ids rs,
                                      list_eqb identity_eqb (map strip_identity ids) got = true.
 Proof. exact check_roster_file_nil. Qed.
 Print Assumptions c18_roster_file_checker.
+
+(* ---- the order in which the services were registered (the order of the factory's list,
+   a property of the running binary, not of the file) shows in no result: two processes
+   that registered the same services in another order read every group file and every
+   private configuration to the same identities and the same roster id ---- *)
+Theorem c18_registry_order_independent : forall f (H256 U5 : bytes -> bytes) r r',
+  Permutation r r' -> NoDup (map fst r) ->
+  (forall l, read_group f H256 U5 r l = read_group f H256 U5 r' l) /\
+  (forall c, get_server_identity f r c = get_server_identity f r' c).
+Proof. exact registry_order_independent. Qed.
+Print Assumptions c18_registry_order_independent.
+
+Example c18_registry_order_example :
+  Permutation f20_reg (rev f20_reg) /\ NoDup (map fst f20_reg) /\ f20_reg <> rev f20_reg.
+Proof. exact registry_order_example. Qed.
+Print Assumptions c18_registry_order_example.
